@@ -39,6 +39,10 @@ class C14Entered(Harness):
                         if post in ("div", "idiv") and (way != "h1" or (wk == "real" and N > 1)):
                             continue
                         yield f"st-N{N}-{way}-w{wk}-{post}", dict(N=N, way=way, weights=wk, post=post, M=2)
+        # histograms that do not track missed values (keep_missed=False): statistics are maintained all the same
+        for way in ("h1", "ff", "n2", "fn1", "n1n1"):
+            for wk in ("none", "real"):
+                yield f"st-N2-{way}-w{wk}-none-keep0", dict(N=2, way=way, weights=wk, post="none", M=2, keep=False)
 
     def declare(self, cx, p):
         N = p["N"]
@@ -69,6 +73,8 @@ class C14Entered(Harness):
             kw = {}
             if "w" in x:
                 kw["weights"] = np.asarray([x["w"][i] for i in idx], dtype=wdt)
+            if p.get("keep") is False:
+                kw["keep_missed"] = False
             return h1(np.asarray([x["v"][i] for i in idx], dtype=float), e, **kw)
 
         def enter(h, hist, start=0):
@@ -102,7 +108,7 @@ class C14Entered(Harness):
                 else:
                     hist.append("n" + way[k + 1])
                     k += 2
-            h = H1(e)
+            h = H1(e, keep_missed=False) if p.get("keep") is False else H1(e)
             enter(h, hist)
         if p["post"] == "copy":
             h = h.copy()
